@@ -31,10 +31,16 @@ META = {
                   "circumcentres), C07_scaling (every formula and every attribute of the scaled mesh, circumcentres and the "
                   "relative parallelism guard included), C07_angle_sum (pairs compose to (-1,0) and atan2 of them sums to PI), "
                   "C07_gauss_bonnet (every triangulation satisfying an explicit boolean-checkable manifold condition), "
-                  "C07_interpolate_constant (all six functions), C07_circumcenter (equidistant + in-plane WHEN a point is "
-                  "returned; no totality). PARTIAL: C07_renumbering_partial (vertex renumbering that keeps the order of the "
-                  "face, in-face and edge lists; face rotation for areas / triangle normals; face-list permutation for the "
-                  "faces->vertices accumulation with weights carried along - gaps listed in Props.v). REFUTED (recorded "
+                  "C07_interpolate_constant (all six functions), C07_interpolation_average (vertices->faces, faces->vertices "
+                  "with its four weightings and corners->vertices with its three + the refused one ARE the defining weighted "
+                  "averages: closed forms of the generated bodies, any mesh, any attribute), C07_circumcenter (equidistant + "
+                  "in-plane WHEN a point is returned; no totality). PARTIAL: C07_renumbering_partial (vertex renumbering that "
+                  "keeps the order of the face list and of each face: EVERY modelled quantity incl. cotan weights, means, Euler "
+                  "number, circumcentres, barycentre, all six interpolations/scatters; the order and orientation of the stored "
+                  "edge list is irrelevant to degree / border flags / angle defects; face rotation for areas / triangle "
+                  "normals; face-list permutation for the faces->vertices accumulation with weights carried along - remaining "
+                  "gaps, listed in Props.v: model-computed corner angles / normals of a ROTATED general polygon, and angle "
+                  "defects / cotan weights / corners->vertices / total area under reordering of the FACE list). REFUTED (recorded "
                   "findings): C07_face_normal_rotation_refuted (skew quads), C07_nonconvex_face_refuted (planar non-convex "
                   "faces: area, normal orientation, reflex corner angles). TESTED ONLY: everything about caches (persistent "
                   "attributes reused after the vertices moved: recorded stale-cache findings, keyed by consumer and attribute), "
